@@ -388,6 +388,28 @@ fn main() {
                             }
                         }
                     }
+                    "dfs" if arg(&args, "--order") == Some("random") => {
+                        if si % of != part {
+                            continue;
+                        }
+                        let mut wl = explore::Worklist::new(bound, seed.wrapping_mul(1000003).wrapping_add(si as u64));
+                        let mut n = 0;
+                        while let Some(p) = wl.next_prefix() {
+                            if n >= max_runs || t_start.elapsed().as_secs_f64() > budget {
+                                exhaustive = false;
+                                out_of_time = t_start.elapsed().as_secs_f64() > budget;
+                                break;
+                            }
+                            let src = Box::new(explore::Prefix { prefix: p });
+                            let (res, _) = exec::run(scn, src, record_ops, quarantine);
+                            wl.record(&res.steps);
+                            sink.put(scn, &res, &json!("dfs"));
+                            n += 1;
+                        }
+                        if wl.dropped {
+                            exhaustive = false;
+                        }
+                    }
                     "dfs" => {
                         if si % of != part {
                             continue;
